@@ -286,6 +286,12 @@ def build(name, argseed, dadi, env):
         if meth == "from_data_dict":
             dd = _dd(rng)
             return (lambda d: Spectrum.from_data_dict(d, ["P", "Q"], [4, 3])), [dd], {}, F
+        if meth == "from_data_dict-1pop":
+            # one population, every configuration many times over, projected 6 -> 4: the same memoised weights as project-6to4
+            dd = _dd(rng)
+            return (lambda d: Spectrum.from_data_dict(d, ["P"], [4], polarized=bool(argseed % 2))), [dd], {}, F
+        if meth == "project-6to4":
+            return (lambda f: f.project([4])), [dadi.Spectrum(rng.uniform(1, 9, 7))], {}, F
         if meth == "from_demes":
             import demes
             b = demes.Builder(time_units="generations")
@@ -464,7 +470,7 @@ def build(name, argseed, dadi, env):
 CATALOG = (
     ["Spectrum." + m for m in ("project", "fold", "unfold", "marginalize", "filter_pops", "reorder_pops", "combine_pops", "scramble_pop_ids",
                                "S", "pi", "Watterson_theta", "Tajima_D", "theta_L", "Fst", "log", "add", "mul", "pickle", "from_phi",
-                               "from_phi_direct", "from_phi_inbreeding", "from_data_dict", "from_demes")]
+                               "from_phi_direct", "from_phi_inbreeding", "from_data_dict", "from_data_dict-1pop", "project-6to4", "from_demes")]
     + ["Numerics." + m for m in ("default_grid", "trapz", "_cached_projection", "multinomln", "BetaBinomln", "cached_part", "BetaBinomConvolution",
                                  "apply_anc_state_misid", "reverse_array", "intersect_masks", "extrap-two_epoch", "extrap-split_mig")]
     + ["PhiManip." + m for m in ("phi_1D", "phi_1D_to_2D", "phi_2D_to_3D_admix", "phi_3D_to_4D", "remove_pop", "reorder_pops", "pulse_2D", "pulse_3D")]
